@@ -166,7 +166,7 @@ def minimise_violation(engine, spec, target_cls, known_keys, max_execs, max_wall
 
 
 def write_replay(property_id, engine, spec, violation, digest, base_seed):
-    d = os.path.join(findings.root(), "replays", property_id)
+    d = os.path.join(findings.replay_dir(), property_id)
     os.makedirs(d, exist_ok=True)
     path = os.path.join(d, f"{spec.get('seed', 0)}.json")
     doc = {
@@ -373,7 +373,7 @@ def _write_evidence(engine, property_id, tier, base_seed, results, t0, det, note
         "wall_s": round(wall, 2),
         "violations": int(n_viol),
     }
-    d = os.path.join(findings.root(), "evidence")
+    d = findings.evidence_dir()
     os.makedirs(d, exist_ok=True)
     tmp = os.path.join(d, f".{property_id}.json.tmp")
     with open(tmp, "w") as fh:
